@@ -1,6 +1,7 @@
 import PdfModel.Model.OpenBytes
 import PdfModel.Lemmas.Indirect
 import PdfModel.Lemmas.XrefStream
+import PdfModel.Lemmas.Sequence
 import PdfModel.Lemmas.SaveBytes
 import PdfModel.Lemmas.XrefWidths
 
@@ -196,8 +197,7 @@ theorem stmC_saved (fmt : R → List UInt8) (env : Env R) (hd : env.decrypt = no
     (hrows : ∀ r ∈ i.rows, IsRow r) (hfits : ∀ r ∈ i.rows, Xref.Fits 1 i.aw i.bw r)
     (body : List UInt8) (hbody : serialize fmt (.stream (xrefDict tr ids infoRef i) (.pending (rowsData i))) = .ok body)
     {buf : Buf} (hsz : buf.size ≤ 2147483647) (pos : Nat) (ext : List UInt8)
-    (h : Suffix buf pos ((fmtNat i.xid ++ [32, 48, 32] ++ kwObj ++ [10] ++ body ++ kwEndobj ++ [10]) ++ tailBytes i ++ ext))
-    (hfuel : needE (xrefDict tr ids infoRef i) ≤ defaultFuel buf) :
+    (h : Suffix buf pos ((fmtNat i.xid ++ [32, 48, 32] ++ kwObj ++ [10] ++ body ++ kwEndobj ++ [10]) ++ tailBytes i ++ ext)) :
     stmC env dec buf pos = .ok ([⟨0, i.rows⟩], xrefDict tr ids infoRef i) := by
   have hf := xrefDict_facts fmt env.parseReal tr infoRef ids i hb
   obtain ⟨txt, hser, hsp⟩ := serialize_stream_ok fmt env.parseReal (xrefDict tr ids infoRef i) (rowsData i) hf.ser
@@ -207,6 +207,13 @@ theorem stmC_saved (fmt : R → List UInt8) (env : Env R) (hd : env.decrypt = no
   have hs : Suffix buf pos (fmtNat i.xid ++ [32, 48, 32] ++ kwObj ++ [10] ++ (txt ++ [10]) ++ kwEndobj ++ [10] ++
       ([10] ++ kwStartxref ++ ([10] ++ fmtNat i.xpos ++ [10] ++ kwEOF ++ ext))) := by
     simpa [tailBytes] using h
+  have hfuel : needE (xrefDict tr ids infoRef i) ≤ defaultFuel buf := by
+    obtain ⟨g1, ents, g2, eol, g3, htxt, _, hents, _⟩ := hsp
+    have h1 := PdfLex.needE_bound env.parseReal _ ents hents
+    have h2 := hs.size_eq
+    have h3 : ents.length ≤ txt.length := by rw [htxt]; simp; omega
+    simp only [List.length_append] at h2
+    unfold defaultFuel; omega
   obtain ⟨dataPos, p, hhead, hdata⟩ := xrefStreamHead_spec env hd _ (rowsData i) txt hsp hf.wf hf.nodup (Or.inl hf.length)
     (Nat.le_trans hf.depth (by decide)) hsz i.xid pos hxid kwStartxref _ (by decide) (by decide +kernel) (by decide)
     (by simp [Bnd]; decide) hs hfuel
